@@ -96,6 +96,33 @@ class C08(Prop):
             res['p_paxis'] = [float(stats.kstest((v[:, i, 0] * sg[:, 0] + 1) / 2, 'uniform').pvalue) for i in range(3)]
             res['p_naxis'] = [float(stats.kstest((v[:, i, 1] * sg[:, 0] + 1) / 2, 'uniform').pvalue) for i in range(3)]
             res['dc_mean_z'] = float(np.abs(dc.mean(axis=1) / (dc.std(axis=1) / np.sqrt(dc.shape[1]))).max())
+            # independence: squared inner products between samples a fixed lag apart, between two calls and between the events of a
+            # multiple-event sample must be distributed like those of randomly paired samples
+            perm = np.random.RandomState(9).permutation(mt.shape[1])
+
+            def dep(x, y, ref):
+                d = np.sum(x * y, axis=0) ** 2
+                r = np.sum(ref * ref[:, perm[:ref.shape[1]] % ref.shape[1]], axis=0) ** 2
+                return float(abs(d.mean() - r.mean()) / math.sqrt(d.var() / len(d) + r.var() / len(r) + 1e-300))
+            res['lag_z'] = {}
+            for name, arr in (('mt', mt), ('dc', dc)):
+                for lag in (1, 2, 3, 7):
+                    res['lag_z']['%s/%d' % (name, lag)] = dep(arr[:, lag:], arr[:, :-lag], arr)
+            np.random.seed = lambda *a, **kw: None
+            try:
+                res['lag_z']['mt/call'] = dep(mt, np.asarray(alg.random_mt()), mt)
+                res['lag_z']['dc/call'] = dep(dc, np.asarray(alg.random_dc()), dc)
+                from MTfit.algorithms.monte_carlo import IterationSample
+                res['events'] = {}
+                for name, flag, ref in (('mt', False, mt), ('dc', True, dc)):
+                    ev = IterationSample(number_events=3, number_samples=case['n'] // 4, dc=flag).random_sample()
+                    res['events'][name] = {'blocks': len(ev), 'shapes': [list(np.asarray(e).shape) for e in ev],
+                                           'distinct_objects': len(set(id(e) for e in ev)) == len(ev)}
+                    for i in range(len(ev)):
+                        for j in range(i):
+                            res['lag_z']['%s/event%d%d' % (name, j, i)] = dep(np.asarray(ev[i]), np.asarray(ev[j]), ref)
+            finally:
+                np.random.seed = o_seed
             return res
         ns = case['n']
         draws = [np.array(d, dtype=float) for d in case['draws']]
@@ -187,6 +214,13 @@ class C08(Prop):
             if min(impl['p_taxis'] + impl['p_paxis'] + impl['p_naxis']) < 1e-5:
                 out.append(('orientation', 'double-couple axes are not uniform on the sphere: p-values T %r P %r N %r' %
                             (impl['p_taxis'], impl['p_paxis'], impl['p_naxis']), None))
+            bad = {k: round(v, 1) for k, v in impl['lag_z'].items() if v > 6.0}
+            if bad:
+                out.append(('independence', 'samples are not independent: squared inner products of paired samples (lag within a call / between '
+                            'calls / between the events of a multiple-event sample) differ from those of randomly paired samples, z = %r' % bad, None))
+            for name, e in impl['events'].items():
+                if e['blocks'] != 3 or any(sh != [6, case['n'] // 4] for sh in e['shapes']) or not e['distinct_objects']:
+                    out.append(('count', 'multiple-event %s sample for three events: %r' % (name, e), None))
             if impl['dc_mean_z'] > 6.0:
                 out.append(('orientation', 'a six-vector component of the sampled double-couples has a non-zero mean (z = %.1f)' % impl['dc_mean_z'], None))
             return out
